@@ -32,6 +32,10 @@ def tdm_script(rng, with_params=False, with_loop=False):
             continue
         names.append(nm)
         shape = "[1, %d]" % n if rng.random() < 0.5 else ""
+        if rng.random() < 0.12:
+            # the same p-name first as a scalar (passed by value), then declared again as the p-array
+            lines.append("float %s = 0.25" % nm)
+            lines.append("Sgate(%s, 0.0) | 0" % nm)
         if with_params and rng.random() < 0.35:
             # the whole p-array is one template parameter, expanded over the declared shape
             lines.append("%s array %s[%d, %d] =\n    {%s}" % (ty, nm, rng.choice([1, 1, 2]), n, rng.choice(["x", "w", "arr", "p%d_data" % k])))
